@@ -31,7 +31,8 @@ Update(i, d) == /\ st[i].alive /\ Len(msg[i]) + Len(d) <= MAXLEN
                 /\ st' = [st EXCEPT ![i] = Feed(st[i], d)]
                 /\ msg' = [msg EXCEPT ![i] = msg[i] \o d]
                 /\ last' = [op |-> "update", i |-> i]
-Clone(i, j) == /\ st[i].alive /\ ~st[j].alive
+\* clone(): into an empty slot; clone_from(): over a live instance (j # i)
+Clone(i, j) == /\ st[i].alive /\ j # i
                /\ st' = [st EXCEPT ![j] = st[i]]
                /\ msg' = [msg EXCEPT ![j] = msg[i]]
                /\ last' = [op |-> "clone", i |-> j]
